@@ -1,6 +1,6 @@
 (* Props/C17.v — a loaded definition is a consistent object graph; broken documents fail at load. *)
 From Coq Require Import ZArith List Bool String.
-From SPP Require Import Base.Sx Model.Xml Model.Loader Proofs.LoaderP.
+From SPP Require Import Base.Sx Model.Xml Model.Loader Proofs.LoaderP Proofs.LinkP.
 Import ListNotations.
 
 (* a successfully linked document: base references resolve inside the graph; every cached parameter / type is the
@@ -38,3 +38,72 @@ Theorem C17_dangling_type_rejected : forall types ps p, In p ps -> assoc types (
   forall acc, exists e, link_params types ps acc = Err e.
 Proof. exact dangling_type_rejected. Qed.
 Print Assumptions C17_dangling_type_rejected.
+
+(* ---------------- containers ---------------- *)
+(* [containers_of g]: the linked containers in insertion order (the dict order of the implementation).  [crefs c]: the names
+   a container refers to structurally, i.e. its base and the containers its entry list nests.  [pos n l]: index of name n. *)
+
+(* each container name denotes exactly one object *)
+Theorem C17_container_names_once : forall sxc d g, link sxc d = Ok g -> NoDup (map fst (g_containers g)).
+Proof. exact link_names_once. Qed.
+Print Assumptions C17_container_names_once.
+
+(* and that object is the document's own element of that name *)
+Theorem C17_container_is_document_element : forall sxc d g n c, link sxc d = Ok g -> In (n, c) (containers_of g) ->
+  xk_name c = n /\ In c (xd_containers d).
+Proof. exact link_own_elements. Qed.
+Print Assumptions C17_container_is_document_element.
+
+(* every base and nested reference resolves to a linked container that was inserted EARLIER *)
+Theorem C17_references_resolve_backwards : forall sxc d g n c m, link sxc d = Ok g -> In (n, c) (containers_of g) -> In m (crefs c) ->
+  In m (map fst (containers_of g)) /\ (pos m (containers_of g) < pos n (containers_of g))%nat.
+Proof. exact link_refs_resolve. Qed.
+Print Assumptions C17_references_resolve_backwards.
+
+(* hence no chain of references, of any length and any mixture of base and nesting links, returns to its start *)
+Theorem C17_no_reference_cycle : forall sxc d g n, link sxc d = Ok g -> ~ chain (containers_of g) n n.
+Proof. exact link_acyclic. Qed.
+Print Assumptions C17_no_reference_cycle.
+
+(* every parameter entry names a parameter of the document *)
+Theorem C17_parameter_entries_resolve : forall sxc d g n c p, link sxc d = Ok g -> In (n, c) (containers_of g) -> In (XEP p) (xk_entries c) ->
+  exists q, In q (xd_params d) /\ xp_name q = p.
+Proof. exact link_entries_resolve. Qed.
+Print Assumptions C17_parameter_entries_resolve.
+
+(* every container element of the document is represented under its name by itself or by an element with the same canonical form *)
+Theorem C17_every_container_represented : forall sxc d g, link sxc d = Ok g -> exists params,
+  (forall n, assoc params n <> None <-> exists p, In p (xd_params d) /\ xp_name p = n) /\
+  good d params (containers_of g) /\ Forall (represented sxc (containers_of g)) (xd_containers d).
+Proof. exact link_good. Qed.
+Print Assumptions C17_every_container_represented.
+
+(* ---- broken documents fail at load ---- *)
+Theorem C17_rejects_dangling_parameter_entry : forall sxc d c p, In c (xd_containers d) -> In (XEP p) (xk_entries c) ->
+  (forall q, In q (xd_params d) -> xp_name q <> p) -> exists e, link sxc d = Err e.
+Proof. exact link_rejects_dangling_parameter. Qed.
+Print Assumptions C17_rejects_dangling_parameter_entry.
+Theorem C17_rejects_dangling_base : forall sxc d c b, In c (xd_containers d) -> xk_base c = Some b ->
+  (forall c', In c' (xd_containers d) -> xk_name c' <> b) -> exists e, link sxc d = Err e.
+Proof. exact link_rejects_dangling_base. Qed.
+Print Assumptions C17_rejects_dangling_base.
+Theorem C17_rejects_dangling_nested_container : forall sxc d c n, In c (xd_containers d) -> In (XEC n) (xk_entries c) ->
+  (forall c', In c' (xd_containers d) -> xk_name c' <> n) -> exists e, link sxc d = Err e.
+Proof. exact link_rejects_dangling_nested. Qed.
+Print Assumptions C17_rejects_dangling_nested_container.
+Theorem C17_rejects_conflicting_duplicate_container : forall sxc d c1 c2, In c1 (xd_containers d) -> In c2 (xd_containers d) ->
+  xk_name c1 = xk_name c2 -> sxc c1 <> sxc c2 -> exists e, link sxc d = Err e.
+Proof. exact link_rejects_conflicting_duplicate. Qed.
+Print Assumptions C17_rejects_conflicting_duplicate_container.
+(* [dchain cs n m]: n refers to ... refers to m through container elements of the document.  The canonical form used to compare
+   duplicates must determine a container's references (it contains them: see Corr/Xml.v sx_container). *)
+Theorem C17_rejects_reference_cycle : forall sxc d n, (forall a b, sxc a = sxc b -> crefs a = crefs b) ->
+  dchain (xd_containers d) n n -> exists e, link sxc d = Err e.
+Proof. exact link_rejects_cycle. Qed.
+Print Assumptions C17_rejects_reference_cycle.
+
+(* the canonical form the linker is run with (Corr/Xml.v [sx_cont], the same the correspondence compares) satisfies that hypothesis *)
+From SPP Require Import Corr.Xml Proofs.LinkCorrP.
+Theorem C17_rejects_reference_cycle_as_run : forall d n, dchain (xd_containers d) n n -> exists e, link sx_cont d = Err e.
+Proof. exact cycle_rejected_concrete. Qed.
+Print Assumptions C17_rejects_reference_cycle_as_run.
